@@ -51,7 +51,9 @@ impl BSM {
 
         let verify_address = verify_p2pkh.to_string_impl()?;
         let address_string = address.to_string_impl()?;
-        if verify_address != address_string {
+        // The signature commits to the key, not to a network: compare public key hashes so that
+        // addresses with a non-mainnet prefix verify as well.
+        if verify_p2pkh.to_pubkey_hash() != address.to_pubkey_hash() {
             return Err(BSVErrors::MessageVerification(format!(
                 "Provided address ({}) does not match signature address ({})",
                 address_string, verify_address
